@@ -38,6 +38,7 @@ reg('C19', plan=plan_c19, level='proof', min_obligations=60,
     design_ref='DESIGN.md §5 C19')
 
 # ------------------------------------------------------------------------------------------- C18
+KMP = ('yuvxyb-math/src/lib.rs', 'k_math_points.rs', 'verif_kani_math_points')
 MATH_INJECT = [('yuvxyb-math/src/pow_exp.rs', 'k_pow_exp.rs', 'verif_kani_pow_exp'),
                ('yuvxyb-math/src/cbrtf.rs', 'k_cbrtf.rs', 'verif_kani_cbrtf')]
 def math_totality_harnesses():
@@ -57,17 +58,24 @@ def plan_c18(tier, seed):
     for e in exps:
         hs.append(H(f'cbrtf_odd_exp_{e}', bounded=f'optional: exponent fixed to {e}, 2^23 mantissas symbolic', timeout=900,
                     domain=f'x = 2^({e}-127) * 1.m, all m', desc='cbrtf(-x) == -cbrtf(x) bit for bit'))
-    return {'kani': [{'crate_dir': 'yuvxyb-math', 'inject': MATH_INJECT, 'harnesses': hs, 'timeout': 2400}]}
+    SP = 'sample points only (golden f64 values generated by tools_golden_math.py): detects globally damaged accuracy, does not prove the accuracy clauses'
+    hs += [H(f'powf_points_{k}', fixed=True, bounded=SP, domain='64 fixed (x, y) pairs (415 in total: 25 bases x 20 exponents, true result in [1e-35, 1e35])', desc='real powf within 2.5e-4 + 8e-6*|y| relative of the f64 value') for k in range(7)]
+    hs += [H('expf_points', fixed=True, bounded=SP, domain='103 fixed x in [-85, 85]', desc='real expf within 1e-5 relative of the f64 value'),
+           H('cbrtf_points', fixed=True, bounded=SP, domain='18 fixed x', desc='real cbrtf within 1 ulp of the f64 cube root; odd'),
+           H('cbrtf_points_more', fixed=True, bounded=SP, domain='172 fixed x: 4 mantissas x every 6th binary exponent of the normal range', desc='real cbrtf within 1 ulp of the f64 cube root; odd')]
+    return {'kani': [{'crate_dir': 'yuvxyb-math', 'inject': MATH_INJECT + [KMP], 'harnesses': hs, 'timeout': 2400}]}
 reg('C18', plan=plan_c18, level='proof', min_obligations=30,
     title='fast math helpers: totality and saturation (accuracy clauses not decided)',
     technique='Kani/CBMC loop-free harnesses over the full f32 domain of the real exp2/log2/powf/expf/cbrtf (bit-precise, complete)',
     text='Complete bit-precise proof (no loop, full symbolic f32 inputs) that cbrtf, powf, expf and their private helpers are total: no panic, '
          'no arithmetic/shift overflow, and the operand of the unchecked float->int conversion in exp2 is always finite and in range; '
          'expf(x)=+inf on [89,1e38] and 0 on [-1e38,-88]. cbrtf oddness: seed symmetry proved for all inputs, full oddness only bounded per exponent. '
-         'The accuracy clauses (1 ulp, 2.5e-4+8e-6|y|, 1e-5) are NOT decided: no oracle for pow/exp/cbrt inside either verifier.',
+         'The accuracy clauses (1 ulp, 2.5e-4+8e-6|y|, 1e-5) are NOT decided in general: no oracle for pow/exp/cbrt inside either verifier. '
+         'BOUNDED sample-point check of those clauses: the real helpers are evaluated bit-precisely at 415 (x,y) pairs, 103 expf arguments and 190 cbrtf arguments (every 6th binary exponent, 4 mantissas) '
+         'against golden f64 values (tools_golden_math.py) within exactly the stated tolerances - a detector for globally damaged accuracy (coefficient, dropped Newton step, range reduction), not a proof.',
     note='Trusted: ' + TOOLS + '. Not decided: accuracy of the polynomial approximations against the transcendental functions; cbrtf oddness beyond the bounded exponents.',
     assumptions=['CBMC float model is IEEE-754 binary32/binary64 round-to-nearest-even', 'cfg!(target_feature="fma") is false in the Kani build (unfused branch verified)'],
-    not_decided=['cbrtf within 1 ulp', 'powf relative error 2.5e-4+8e-6|y|', 'expf relative error 1e-5', 'cbrtf oddness for all exponents (bounded only)'],
+    not_decided=['cbrtf within 1 ulp (beyond 190 sample points)', 'powf relative error 2.5e-4+8e-6|y| (beyond 415 sample points)', 'expf relative error 1e-5 (beyond 103 sample points)', 'cbrtf oddness for all exponents (bounded only)'],
     design_ref='DESIGN.md §5 C18')
 
 # ------------------------------------------------------------------------------------------- shared Kani pieces (yuvxyb crate)
@@ -283,6 +291,7 @@ KH = ('src/hsl.rs', 'k_hsl.rs', 'verif_kani_hsl')
 KL = ('src/linear_rgb.rs', 'k_lrgb.rs', 'verif_kani_lrgb')
 
 # ------------------------------------------------------------------------------------------- C17
+KHP = ('src/hsl.rs', 'k_hsl_points.rs', 'verif_kani_hsl_points')
 def plan_c17(tier, seed):
     hs = [H('hsl_hue_nonneg', domain='rgb: every f32 triple in [0,1]^3', desc='H >= 0'),
           H('hsl_hue_below_360', domain='[0,1]^3', desc='H < 360'),
@@ -291,21 +300,23 @@ def plan_c17(tier, seed):
           H('hsl_light_def', domain='[0,1]^3', desc='|L - (max+min)/2| <= 1e-6 (reference in f64)'),
           H('hsl_grey', domain='g: every f32 in [0,1]', desc='grey -> (0, 0, g) exactly'),
           H('hsl_total', domain='all f32 triples', desc='no panic/overflow'),
-          H('hsl_to_lrgb_total', domain='all f32 triples', desc='no panic/overflow (values not decided: CBMC fmodf model)')]
+          H('hsl_to_lrgb_total', domain='all f32 triples', desc='no panic/overflow (values not decided: CBMC fmodf model)'),
+          H('hsl_points_forward', fixed=True, bounded='226 fixed pixels of [0,1]^3 ({0,0.13,0.25,0.5,0.77,1}^3 plus 10 near-tie / near-grey pixels) against the f64 hexcone definition (tools_golden_hsl.py)',
+            domain='226 fixed pixels', desc='real lrgb_to_hsl: ranges, L within 1e-6, S within 1e-4 (0.01<=L<=0.99), H within 0.01 deg on the circle (max-min>=0.01), grey -> (0,0,L)')]
     if tier == 'thorough':
         hs += [H(n, bounded='optional: complete in principle (full [0,1]^3) but each query needs > 25 min; run under a per-harness timeout', timeout=5400,
                  domain='[0,1]^3 restricted to the side conditions of the statement', desc=d)
                for n, d in (('hsl_sat_def', 'S vs (max-min)/(1-|2L-1|) within 1e-4 for 0.01<=L<=0.99'),
                             ('hsl_hue_def_red', 'H vs hexcone hue, red sextants, 0.01 deg, max-min >= 0.01'),
                             ('hsl_hue_def_green', 'green sextants'), ('hsl_hue_def_blue', 'blue sextants'))]
-    return {'verus': [('u_hsl', {})], 'kani': [{'crate_dir': '', 'inject': [KH, KL], 'harnesses': hs, 'timeout': 22000}]}
+    return {'verus': [('u_hsl', {})], 'kani': [{'crate_dir': '', 'inject': [KH, KL, KHP], 'harnesses': hs, 'timeout': 22000}]}
 reg('C17', plan=plan_c17, level='proof', min_obligations=200,
     title='HSL conversion follows the hexcone model, stays in range and round-trips (exact reals + bit-precise ranges)',
     technique='Verus exact-real contracts on the real lrgb_to_hsl / hsl_to_lrgb (hexcone definition, L=0/L=1, round-trip lemma); Kani loop-free harnesses over every f32 triple of [0,1]^3 (bit-precise ranges, L definition, grey)',
     text='Complete bit-precise proof over all of [0,1]^3 (three symbolic f32, no loop) that the real lrgb_to_hsl returns H in [0,360), S in [0,1], L in [0,1], L within 1e-6 of (max+min)/2, '
          'and maps grey to (0,0,g) exactly; both directions are total on arbitrary f32. Exact-real proof (Verus, U-hsl) on the real functions: L = (max+min)/2, S = (max-min)/(1-|2L-1|) (shown <= 1, so the cap only absorbs rounding), '
          'H = hue by the sextant of the maximum channel wrapped into [0,360) wherever the code\'s EPSILON-fuzzy maximum tests select the true maximum, H in [0,360) for all inputs; hsl_to_lrgb is the hexcone inverse with L=0 -> black and L=1 -> white '
-         'for every H,S; and RGB->HSL->RGB returns the pixel EXACTLY on that region (chroma >= EPSILON, L at least EPSILON from 0 and 1). The bit-precise S/H equalities (> 25 min each) run only in the thorough tier under a timeout. '
+         'for every H,S; and RGB->HSL->RGB returns the pixel EXACTLY on that region (chroma >= EPSILON, L at least EPSILON from 0 and 1). The bit-precise S/H equalities (> 25 min each) run only in the thorough tier under a timeout; the quick tier checks them, bounded, at 226 fixed pixels against golden f64 hexcone values (hsl_points_forward). '
          'NOT decided: the f32 rounding tolerances (1e-4, 0.01 deg, 1e-5) and the EPSILON-wide fuzz zones of the round trip.',
     note=BITPRECISE + '. ' + TOOLS,
     assumptions=[BITPRECISE, EXACT, 'f32 % is an uninterpreted remainder with the division axiom (ax_rem)'],
@@ -352,11 +363,33 @@ reg('C15', plan=plan_c15, level='proof', min_obligations=60,
          'Independent second opinion (Kani, complete, anchor-free): the real fix_unspecified_data equals the heuristic restated from the property text for every config (all enum values) and every usize width/height.',
     note='; '.join(DISPATCH_ASSUME) + '; ' + LOGSTUB + '. ' + TOOLS,
     assumptions=DISPATCH_ASSUME + [LOGSTUB], not_decided=['numeric round trip through the stored config within the C09 budget'], design_ref='DESIGN.md §5 C15')
+KCP = ('src/yuv_rgb/transfer.rs', 'k_curve_points.rs', 'verif_kani_curve_points')
+GOLD = 'fixed points of [0,1] (12 per curve and direction; PQ fewer) against golden values computed in f64 from the DEFINING formulas with the standards\' constants (tools_golden_curves.py), through the real public dispatch, bit-precise f32 + fast powf/expf'
+def curve_point_harnesses(tier, pq=True):
+    names = ['bt1886', 'bt470m', 'bt470bg', 'xvycc', 'srgb', 'logarithmic100', 'logarithmic316', 'hybridloggamma', 'linear']
+    hs = [H(f'curve_points_{n}', fixed=True, bounded=GOLD, domain='12 fixed points', desc=f'{n}: to_linear (and, unless the curve needs std ln/log10/sqrt, to_gamma and the round trip) within 2.5e-4 of the formula; aliases bit-identical; Linear bit-exact') for n in names]
+    if pq:
+        hs.append(H('curve_points_pq_two_evaluations', fixed=True, bounded=GOLD, domain='PQ: to_linear(0.05), to_gamma(0.001)', desc='PQ (scene-referred, OOTF scale 59.490803): both directions at one point each (2.5e-4 / 5.7e-4)'))
+        if tier == 'thorough':
+            hs.append(H('curve_points_perceptualquantizer', fixed=True, timeout=2400, bounded='optional (about 7 min; per-harness timeout): ' + GOLD, domain='PQ: 3 points, both directions and round trip', desc='PQ at 0.001, 0.05, 0.5'))
+    return hs
+KCT = ('src/yuv_rgb/transfer.rs', 'k_curve_tables.rs', 'verif_kani_curve_tables')
+TABS = ['rec_1886_eotf', 'rec_1886_inverse_eotf', 'rec_470m_oetf', 'rec_470m_inverse_oetf', 'rec_470bg_oetf', 'rec_470bg_inverse_oetf', 'xvycc_eotf', 'xvycc_inverse_eotf',
+        'srgb_eotf', 'srgb_inverse_eotf', 'rec_709_oetf', 'rec_709_inverse_oetf', 'arib_b67_inverse_oetf', 'log100_inverse_oetf', 'log316_inverse_oetf']
+def curve_table_harnesses(tier):
+    TB = '272-point grid of [0,1] (i/255 and i/255/64, i <= 16) against golden f64 values of the defining formula (tools_golden_curves.py); the real scalar function in f32 with the fast powf/expf, bit-precise'
+    hs = [H(f'curve_table_{n}', fixed=True, bounded=TB, domain='272 fixed points', desc=f'{n}: within 2.5e-4 of the defining formula at every grid point') for n in TABS]
+    hs += [H('curve_table_st_2084_oetf', fixed=True, bounded=TB + ' - PQ: 10 hand-picked grid points incl. the dark end (CBMC does not fold PQ: 10-30 s per point)', domain='10 fixed points', desc='PQ linear->gamma within 5.7e-4'),
+           H('curve_table_st_2084_inverse_oetf', fixed=True, bounded=TB + ' - PQ: 6 hand-picked grid points', domain='6 fixed points', desc='PQ gamma->linear within 2.5e-4')]
+    if tier == 'thorough':
+        hs += [H(f'curve_table_{n}_more', fixed=True, timeout=3000, bounded='optional (per-harness timeout): ' + TB + ' - PQ: every 7th grid point', domain='39 fixed points', desc=f'{n}: PQ on every 7th grid point') for n in ('st_2084_oetf', 'st_2084_inverse_oetf')]
+    return hs
 def plan_c03(tier, seed):
     hs = [H(f'anchor_{c}', domain='input-free', desc=f'{c}(0) within 1e-6 of 0 and (1) within budget of 1') for c in
           ['rec_1886_eotf', 'rec_1886_inverse_eotf', 'rec_470m_oetf', 'rec_470m_inverse_oetf', 'rec_470bg_oetf', 'rec_470bg_inverse_oetf',
            'xvycc_eotf', 'xvycc_inverse_eotf', 'srgb_eotf', 'srgb_inverse_eotf', 'st_2084_inverse_oetf', 'st_2084_oetf']]
-    return {'verus': [('u_dispatch', {}), ('u_curves', {})], 'kani': [{'crate_dir': '', 'inject': [KT], 'harnesses': hs}]}
+    hs += curve_point_harnesses(tier, pq=(tier == 'thorough')) + curve_table_harnesses(tier)
+    return {'verus': [('u_dispatch', {}), ('u_curves', {})], 'kani': [{'crate_dir': '', 'inject': [KT, KCP, KCT], 'harnesses': hs}]}
 reg('C03', plan=plan_c03, level='proof', min_obligations=100,
     title='Transfer characteristics: dispatch, aliases, identity, curve = standard formula over ideal pow/exp/log, anchors (accuracy of the fast approximations not decided)',
     technique='Verus: postconditions on the real to_linear/to_gamma match tables (curve named after each characteristic; aliases one term; Linear returns its input) and exact-real contracts on all 24 scalar curve functions and 13 constants (piecewise formula of the standard over ideal pow/exp/log10/ln/sqrt); Kani anchors',
@@ -364,7 +397,9 @@ reg('C03', plan=plan_c03, level='proof', min_obligations=100,
          'that BT.1886/ST170M/ST240M/BT.2020-10/12 produce the same term (bit-identical results) and that Linear returns the very same Vec (bit-exact identity); exact-real proof (U-curves) that each of the 24 scalar curve functions '
          'IS the piecewise defining formula of its standard (thresholds on the right side, right exponents, scene-referred PQ = inverse EOTF of the BT.2100 OOTF, HLG, log curves with their cut-offs bracketed to 1e-7) over ideal pow/exp/log functions, '
          'and that the 13 constants equal the standards\' (ST 2084 m2,c1,c3 exactly; others within stated f32-level tolerances; sRGB within 1e-3 of 1.055/0.0031308); bit-precise input-free evaluation of f(0) and f(1) for the 12 powf-based curves. '
-         'NOT decided: |fast curve - ideal curve| < 2.5e-4 on [0,1] (accuracy of the degree-5 log2/exp2 polynomials against transcendental functions; no oracle in either verifier).',
+         'NOT decided: |fast curve - ideal curve| < 2.5e-4 on ALL of [0,1] (accuracy of the degree-5 log2/exp2 polynomials against transcendental functions; no oracle in either verifier). '
+         'BOUNDED checks at the f32 level against golden values of the defining formulas (generated in f64 by tools_golden_curves.py): a 272-point grid per scalar curve function (PQ: 6-10 points; thorough 39), and, anchor-free through the public dispatch, 12 fixed points per curve and direction with alias/identity bit-equality; '
+         'linear->gamma of HLG/Log100/Log316 is left out there (std ln/log10/sqrt are only over-approximated by CBMC).',
     note='; '.join(DISPATCH_ASSUME[-4:]) + '; the macro-generated flatten loop applies the scalar to every component (bounded Kani harness flatten_len_*). ' + TOOLS,
     assumptions=DISPATCH_ASSUME[-4:], not_decided=['accuracy of the fast powf/expf against the ideal functions (the 2.5e-4 / 5.7e-4 budgets)'],
     design_ref='DESIGN.md §5 C03')
@@ -465,7 +500,8 @@ def plan_c10(tier, seed):
             desc='|to_gamma(to_linear(x)) - x| < 2.5e-4 through the real scalar pair') for c in ['bt1886', 'bt470m', 'bt470bg', 'srgb', 'xvycc']]
     if tier == 'thorough':   # PQ (8 powf per round trip) did not finish in 25 min: thorough only, under a per-harness timeout, never an alarm on timeout
         hs.append(H('grid10_pq', bounded='optional: 10-bit code grid, PQ; per-harness timeout', domain='c in 0..=1023', timeout=3600, desc='PQ round trip < 5.7e-4'))
-    return {'verus': [('u_curves', {})], 'kani': [{'crate_dir': '', 'inject': [KT], 'harnesses': hs, 'timeout': 3000}]}
+    hs += [h for h in curve_point_harnesses(tier, pq=(tier == 'thorough')) if h.name not in ('curve_points_linear', 'curve_points_pq_two_evaluations')]
+    return {'verus': [('u_curves', {})], 'kani': [{'crate_dir': '', 'inject': [KT, KCP], 'harnesses': hs, 'timeout': 3000}]}
 reg('C10', plan=plan_c10, level='model_checking', min_obligations=0,
     title='Gamma->linear->gamma on the 10-bit grid (bounded stand-in; nothing counted as proved)',
     technique='bounded Kani/CBMC: the real scalar curve pair composed on every point of the 10-bit code grid (bit-precise); plus a Verus exact-real lemma: with an ideal power function the pure power-law pairs compose to the identity for every x >= 0',
